@@ -81,6 +81,13 @@ def main():
         vcopy = copy + "-verif"
         sh("rm -rf %s && mkdir -p %s && rsync -a --exclude .git --exclude replays --exclude seeded %s/ %s/" % (vcopy, vcopy, VERIF, vcopy))
         for p in props:
+            # control run: the same private copy against the UNCHANGED repository must be silent (the copy of /verif
+            # may have been taken while somebody was editing it; a check that is already broken proves nothing)
+            c0 = sh("cd %s && AUREL_REPO=/repo timeout 3000 ./check %s --tier %s" % (vcopy, p, a.tier))
+            if c0.returncode != 0 or "VIOLATION" in c0.stdout:
+                res["checks"][p] = {"rc": -1, "violations": [], "n_violations": 0, "control_failed": True,
+                                    "tail": c0.stdout[-800:]}
+                continue
             c = sh("cd %s && AUREL_REPO=%s timeout 3000 ./check %s --tier %s" % (vcopy, copy, p, a.tier))
             viol = [l for l in c.stdout.split("\n") if l.startswith("VIOLATION")]
             broken = [l for l in c.stdout.split("\n") if "BROKEN obligation" in l]
@@ -100,7 +107,8 @@ def main():
             shutil.rmtree(copy, ignore_errors=True)
             shutil.rmtree(copy + "-verif", ignore_errors=True)
     json.dump(res, open(os.path.join(d, "result.json"), "w"), indent=1)
-    verdict = {p: ("CAUGHT" if v["rc"] == 1 and v["n_violations"] else "MISSED rc=%s" % v["rc"]) for p, v in res["checks"].items()}
+    verdict = {p: ("CONTROL-FAILED (check not silent on the unchanged tree in this copy; rerun)" if v.get("control_failed") else
+                   "CAUGHT" if v["rc"] == 1 and v["n_violations"] else "MISSED rc=%s" % v["rc"]) for p, v in res["checks"].items()}
     print("seed %s: confirmed=%s %s" % (d, res.get("confirmed"), verdict))
     return 0
 
